@@ -209,12 +209,12 @@ Print Assumptions C03_extras_block_restores.
 (* non-vacuity: nested blocks that remove a reaction two user constraints mention, merge, switch the interface, remove a
    user constraint; afterwards the state is the one at the entry *)
 Example C03_extras_block_nonvacuous :
-  crun vfix (Enter :: inner ++ [Exit]) c0 = c0 /\
-  rin (cur (crun vfix (Enter :: inner) c0)) 1 = false /\ rin (cur c0) 1 = true /\
-  odir (cur (crun vfix (Enter :: inner) c0)) = true /\ odir (cur c0) = false /\
+  (crun vfix (Enter :: inner ++ [Exit]) c0 = c0 /\
+   (* ... and something did happen inside *)
+   rin (cur (crun vfix (Enter :: inner) c0)) 1 = false /\ rin (cur c0) 1 = true /\
+   odir (cur (crun vfix (Enter :: inner) c0)) = true /\ odir (cur c0) = false /\
+   length (saved (crun vfix (Enter :: inner) c0)) = 1%nat) /\
   CInv (crun vfix (Enter :: inner ++ [Exit]) c0).
-Proof.
-  destruct block_nonvacuous as (A & B & C & D & E & _). repeat split; try assumption; apply block_CInv.
-Qed.
+Proof. split; [exact block_nonvacuous|exact block_CInv]. Qed.
 Print Assumptions C03_extras_block_nonvacuous.
 End ExtrasKernel.
